@@ -2166,6 +2166,24 @@ def root_tail_program(rng, pid):
     return {"id": pid, "cfg": dict(cfg, obs={"raw": True, "rv": False, "sv": False}), "ops": ops, "origin": "io:root-tail"}
 
 
+def clone_flush_program(rng, pid, cfg, cs):
+    """a handle writes and is flushed (nothing pending any more), is cloned, the clone changes the file (appends across a cluster boundary or
+    empties it) and is closed, then the first handle is closed: a handle with nothing pending writes nothing back, the entry keeps what the
+    clone stored"""
+    ops = [{"op": "create_file", "at": "", "path": "shared.bin", "as": "a"}, {"op": "write_all", "h": "a", "pat": 1, "len": rng.choice([100, cs, cs + 9])},
+           {"op": "flush", "h": "a"}]
+    if rng.random() < 0.5:
+        ops.append({"op": "flush", "h": "a"})
+    ops.append({"op": "clone", "h": "a", "as": "b"})
+    if rng.random() < 0.6:
+        ops += [{"op": "seek", "h": "b", "from": "end", "off": 0}, {"op": "write_all", "h": "b", "pat": 2, "len": rng.choice([cs, 3 * cs + 1])}]
+    else:
+        ops += [{"op": "seek", "h": "b", "from": "start", "off": rng.choice([0, 0, 7])}, {"op": "truncate", "h": "b"}]
+    ops += [{"op": rng.choice(["close", "flush"]), "h": "b"}, {"op": "close", "h": "b"}, {"op": "close", "h": "a"}, {"op": "list", "at": "", "path": ""},
+            {"op": "open_file", "at": "", "path": "shared.bin", "as": "r"}, {"op": "read_all", "h": "r", "len": 5 * cs}, {"op": "close", "h": "r"}, {"op": "unmount"}]
+    return {"id": pid, "cfg": cfg, "ops": ops, "origin": "io:clone-flush"}
+
+
 def with_remounts(prog, rng, k=2):
     """insert k session ends (unmount / dropfs) at random positions: handles still open are closed by the executor"""
     ops = list(prog["ops"])
